@@ -280,7 +280,8 @@ class Tr:
     CONSTS = {"K_GRANULARITY", "MIN_RTT", "ZERO_DURATION", "K_PERSISTENT_CONGESTION_THRESHOLD", "DEFAULT_INITIAL_RTT",
               "K_PACKET_THRESHOLD"}
 
-    def __init__(self, params, opt, self_mut, tsvars=(), local_fns=()):
+    def __init__(self, params, opt, self_mut, tsvars=(), local_fns=(), self_name="this"):
+        self.self_name = self_name    # Lean name of `self` (a by-value `Timestamp` in has_elapsed)
         self.opt = opt                # result is Option (a debug_assert!/expect can fire)
         self.self_mut = self_mut      # `&mut self`: result is the updated `this`
         self.ts = set(tsvars)         # variables of type Timestamp
@@ -307,7 +308,7 @@ class Tr:
         if k == "path":
             p = x[1]
             if p == ["self"]:
-                return "this"
+                return self.self_name
             if p == ["None"]:
                 return "none"
             if p == ["Outcome", "Lost"]:
@@ -478,12 +479,12 @@ def _balanced_outer(s):
     return True
 
 
-def translate(o, src, rust_name, lean_name, lean_sig, ret, opt=False, self_mut=False, tsvars=(), local_fns=()):
+def translate(o, src, rust_name, lean_name, lean_sig, ret, opt=False, self_mut=False, tsvars=(), local_fns=(), self_name="this"):
     """append `def lean_name lean_sig : ret := <translated body>`; on failure emit a stub that cannot bridge"""
     try:
         params, body = find_fn(src, rust_name)
         stmts = P(tokenize(body)).block()
-        tr = Tr(params, opt, self_mut, tsvars, local_fns)
+        tr = Tr(params, opt, self_mut, tsvars, local_fns, self_name)
         txt = tr.block(stmts, 1)
         o.lines.append(f"/-- translated from `fn {rust_name}({' '.join(params.split())})` -/")
         o.lines.append(f"def {lean_name} {lean_sig} : {ret} :=\n{txt}")
@@ -547,11 +548,7 @@ def extract(repo):
              "Timestamp + Duration = from_duration_impl(as_duration_impl() + rhs), from_duration_impl truncates with as_micros()")
 
     # ---- translated functions
-    translate(o, tsrc, "has_elapsed", "hasElapsed", "(self now : Nat)", "Bool", tsvars=())
-    # `self` is an identifier here (a Timestamp by value): rename in the emitted text
-    for i, l in enumerate(o.lines):
-        if l.startswith("def hasElapsed "):
-            o.lines[i] = l.replace("this.0", "self").replace("decide (this <", "decide (self <")
+    translate(o, tsrc, "has_elapsed", "hasElapsed", "(self now : Nat)", "Bool", tsvars=(), self_name="self")
     translate(o, loss, "detect", "detect",
               "(timeThreshold timeSent packetNumberThreshold packetNumber largestAckedPacketNumber now : Nat)",
               "Option Outcome", opt=True, tsvars=("time_sent", "now"))
